@@ -2709,13 +2709,17 @@ impl KotoVm {
                         match value {
                             Tuple(new_entry) if new_entry.len() == 2 => {
                                 let key = ValueKey::try_from(new_entry[0].clone())?;
-                                // There's no API on IndexMap for replacing an entry,
-                                // so use swap_remove_index to remove the old entry,
-                                // then insert the new entry at the end of the map,
-                                // followed by swap_indices to swap the new entry back into position.
-                                map_data.swap_remove_index(u_index);
-                                map_data.insert(key, new_entry[1].clone());
-                                map_data.swap_indices(u_index, map_len - 1);
+                                // Replace the entry by removing the old entry and then inserting
+                                // the new entry at the same position.
+                                // If the new key is already present elsewhere in the map then that
+                                // entry gets moved into position with the new value.
+                                map_data.shift_remove_index(u_index);
+                                let new_index = if map_data.contains_key(&key) {
+                                    u_index.min(map_data.len() - 1)
+                                } else {
+                                    u_index.min(map_data.len())
+                                };
+                                map_data.shift_insert(new_index, key, new_entry[1].clone());
                                 Ok(())
                             }
                             unexpected => unexpected_type("Tuple with 2 elements", unexpected),
